@@ -245,9 +245,13 @@ func vRunSvcScenario(sc vSvcScenario) (*vSvcRun, []vDMViolation) {
 		if len(deploys) > 0 && len(teardowns) > 0 && teardowns[0].Start < deploys[len(deploys)-1].End {
 			bad("teardown-after-last-deploy", "TeardownLease started before the last deploy had returned")
 		}
+		// (judged against the start of the teardown, not against the moment the
+		// lease-closed event was published: the event takes its way through the
+		// bus and the service, and a deploy that the manager starts before the
+		// request reaches it is in order)
 		for _, d := range deploys {
-			if d.Start > closedAt && len(run.Notes) == 0 && sc.Name != "closed-during-deploy" {
-				bad("no-deploy-after-teardown-requested", fmt.Sprintf("a deploy started at %d after the lease closed at %d", d.Start, closedAt))
+			if len(teardowns) > 0 && d.Start > teardowns[0].Start && len(run.Notes) == 0 {
+				bad("no-deploy-after-teardown-requested", fmt.Sprintf("a deploy started at %d after the teardown had started at %d (lease-closed published at %d)", d.Start, teardowns[0].Start, closedAt))
 			}
 		}
 		// cluster operations of one lease never overlap
